@@ -98,6 +98,10 @@ pub fn fused_addassign_mul_scalar_binary(
     if octets.is_empty() {
         return;
     }
+    #[cfg(raptorq_verif)]
+    if verif_kernels::forced() != verif_kernels::Level::Auto {
+        return verif_kernels::fma_binary_at(verif_kernels::forced(), octets, other, scalar);
+    }
     #[cfg(all(any(target_arch = "x86", target_arch = "x86_64"), feature = "std"))]
     {
         if is_x86_feature_detected!("avx512f") && is_x86_feature_detected!("avx512bw") {
@@ -614,6 +618,10 @@ unsafe fn mulassign_scalar_ssse3(octets: &mut [u8], scalar: &Octet) {
 
 #[inline]
 pub fn mulassign_scalar(octets: &mut [u8], scalar: &Octet) {
+    #[cfg(raptorq_verif)]
+    if verif_kernels::forced() != verif_kernels::Level::Auto {
+        return verif_kernels::mulassign_scalar_at(verif_kernels::forced(), octets, scalar);
+    }
     #[cfg(all(any(target_arch = "x86", target_arch = "x86_64"), feature = "std"))]
     {
         if is_x86_feature_detected!("avx512f") && is_x86_feature_detected!("avx512bw") {
@@ -828,6 +836,10 @@ pub fn fused_addassign_mul_scalar(octets: &mut [u8], other: &[u8], scalar: &Octe
     );
 
     assert_eq!(octets.len(), other.len());
+    #[cfg(raptorq_verif)]
+    if verif_kernels::forced() != verif_kernels::Level::Auto {
+        return verif_kernels::fma_at(verif_kernels::forced(), octets, other, scalar);
+    }
     #[cfg(all(any(target_arch = "x86", target_arch = "x86_64"), feature = "std"))]
     {
         if is_x86_feature_detected!("avx512f") && is_x86_feature_detected!("avx512bw") {
@@ -1045,6 +1057,10 @@ unsafe fn add_assign_ssse3(octets: &mut [u8], other: &[u8]) {
 
 #[inline]
 pub fn add_assign(octets: &mut [u8], other: &[u8]) {
+    #[cfg(raptorq_verif)]
+    if verif_kernels::forced() != verif_kernels::Level::Auto {
+        return verif_kernels::add_assign_at(verif_kernels::forced(), octets, other);
+    }
     #[cfg(all(any(target_arch = "x86", target_arch = "x86_64"), feature = "std"))]
     {
         if is_x86_feature_detected!("avx512f") {
@@ -1081,6 +1097,160 @@ pub fn add_assign(octets: &mut [u8], other: &[u8]) {
         // }
     }
     return add_assign_fallback(octets, other);
+}
+
+// Verification hooks (compiled only with --cfg raptorq_verif): every private kernel callable on its own, a
+// "supported on this CPU" predicate, and a process-wide forced kernel level consulted first by the dispatchers.
+#[cfg(raptorq_verif)]
+pub mod verif_kernels {
+    use super::*;
+    use core::sync::atomic::{AtomicU8, Ordering};
+
+    #[derive(Copy, Clone, Debug, PartialEq, Eq)]
+    pub enum Level {
+        Auto = 0,
+        Portable = 1,
+        Ssse3 = 2,
+        Avx2 = 3,
+        Avx512 = 4,
+        Neon = 5,
+    }
+
+    static FORCED: AtomicU8 = AtomicU8::new(0);
+
+    pub fn force(level: Level) {
+        FORCED.store(level as u8, Ordering::SeqCst);
+    }
+
+    pub fn forced() -> Level {
+        match FORCED.load(Ordering::Relaxed) {
+            1 => Level::Portable,
+            2 => Level::Ssse3,
+            3 => Level::Avx2,
+            4 => Level::Avx512,
+            5 => Level::Neon,
+            _ => Level::Auto,
+        }
+    }
+
+    #[allow(unreachable_code)]
+    pub fn supported(level: Level) -> bool {
+        match level {
+            Level::Auto | Level::Portable => true,
+            Level::Ssse3 => {
+                #[cfg(all(any(target_arch = "x86", target_arch = "x86_64"), feature = "std"))]
+                return is_x86_feature_detected!("ssse3");
+                false
+            }
+            Level::Avx2 => {
+                #[cfg(all(any(target_arch = "x86", target_arch = "x86_64"), feature = "std"))]
+                return is_x86_feature_detected!("avx2") && is_x86_feature_detected!("bmi1");
+                false
+            }
+            Level::Avx512 => {
+                #[cfg(all(any(target_arch = "x86", target_arch = "x86_64"), feature = "std"))]
+                return is_x86_feature_detected!("avx512f") && is_x86_feature_detected!("avx512bw");
+                false
+            }
+            Level::Neon => {
+                #[cfg(all(target_arch = "aarch64", feature = "std"))]
+                return is_aarch64_feature_detected!("neon");
+                false
+            }
+        }
+    }
+
+    // Each *_at runs exactly the kernel of that level (the caller checks `supported`); an unsupported or
+    // non-existent variant falls back to the portable code.
+    pub fn add_assign_at(level: Level, octets: &mut [u8], other: &[u8]) {
+        assert!(supported(level));
+        #[cfg(all(any(target_arch = "x86", target_arch = "x86_64"), feature = "std"))]
+        unsafe {
+            match level {
+                Level::Avx512 => return add_assign_avx512(octets, other),
+                Level::Avx2 => return add_assign_avx2(octets, other),
+                Level::Ssse3 => return add_assign_ssse3(octets, other),
+                _ => {}
+            }
+        }
+        #[cfg(all(target_arch = "aarch64", feature = "std"))]
+        unsafe {
+            if level == Level::Neon {
+                return add_assign_neon(octets, other);
+            }
+        }
+        add_assign_fallback(octets, other)
+    }
+
+    pub fn mulassign_scalar_at(level: Level, octets: &mut [u8], scalar: &Octet) {
+        assert!(supported(level));
+        #[cfg(all(any(target_arch = "x86", target_arch = "x86_64"), feature = "std"))]
+        unsafe {
+            match level {
+                Level::Avx512 => return mulassign_scalar_avx512(octets, scalar),
+                Level::Avx2 => return mulassign_scalar_avx2(octets, scalar),
+                Level::Ssse3 => return mulassign_scalar_ssse3(octets, scalar),
+                _ => {}
+            }
+        }
+        #[cfg(all(target_arch = "aarch64", feature = "std"))]
+        unsafe {
+            if level == Level::Neon {
+                return mulassign_scalar_neon(octets, scalar);
+            }
+        }
+        mulassign_scalar_fallback(octets, scalar)
+    }
+
+    pub fn fma_at(level: Level, octets: &mut [u8], other: &[u8], scalar: &Octet) {
+        assert!(supported(level));
+        assert_eq!(octets.len(), other.len());
+        #[cfg(all(any(target_arch = "x86", target_arch = "x86_64"), feature = "std"))]
+        unsafe {
+            match level {
+                Level::Avx512 => return fused_addassign_mul_scalar_avx512(octets, other, scalar),
+                Level::Avx2 => return fused_addassign_mul_scalar_avx2(octets, other, scalar),
+                Level::Ssse3 => return fused_addassign_mul_scalar_ssse3(octets, other, scalar),
+                _ => {}
+            }
+        }
+        #[cfg(all(target_arch = "aarch64", feature = "std"))]
+        unsafe {
+            if level == Level::Neon {
+                return fused_addassign_mul_scalar_neon(octets, other, scalar);
+            }
+        }
+        fused_addassign_mul_scalar_fallback(octets, other, scalar)
+    }
+
+    // Levels without a packed-bit kernel (SSSE3, portable) take the generic route of the dispatcher: unpack
+    // the bits, then the byte kernel of that level.
+    pub fn fma_binary_at(level: Level, octets: &mut [u8], other: &BinaryOctetVec, scalar: &Octet) {
+        assert!(supported(level));
+        assert_eq!(octets.len(), other.len());
+        if octets.is_empty() {
+            return;
+        }
+        #[cfg(all(any(target_arch = "x86", target_arch = "x86_64"), feature = "std"))]
+        unsafe {
+            match level {
+                Level::Avx512 => return fused_addassign_mul_scalar_binary_avx512(octets, other, scalar),
+                Level::Avx2 => return fused_addassign_mul_scalar_binary_avx2(octets, other, scalar),
+                _ => {}
+            }
+        }
+        #[cfg(all(target_arch = "aarch64", feature = "std"))]
+        unsafe {
+            if level == Level::Neon {
+                return fused_addassign_mul_scalar_binary_neon(octets, other, scalar);
+            }
+        }
+        if *scalar == Octet::one() {
+            add_assign_at(level, octets, &other.to_octet_vec())
+        } else {
+            fma_at(level, octets, &other.to_octet_vec(), scalar)
+        }
+    }
 }
 
 #[cfg(feature = "std")]
